@@ -358,8 +358,19 @@ static void ares_rand_bytes_fetch(ares_rand_state *state, unsigned char *buf,
   }
 }
 
+#ifdef CARES_VERIF_HOOKS
+/* verification hook: scripted / recorded randomness */
+void (*ares_verif_rand_cb)(unsigned char *buf, size_t len) = NULL;
+#endif
+
 void ares_rand_bytes(ares_rand_state *state, unsigned char *buf, size_t len)
 {
+#ifdef CARES_VERIF_HOOKS
+  if (ares_verif_rand_cb != NULL) {
+    ares_verif_rand_cb(buf, len);
+    return;
+  }
+#endif
   /* See if we need to refill the cache to serve the request, but if len is
    * excessive, we're not going to update our cache or serve from cache */
   if (len > state->cache_remaining && len < sizeof(state->cache)) {
